@@ -36,7 +36,15 @@ func (cache *dirCache) Store(target *core.BuildTarget, key []byte, files []strin
 	cacheDir := cache.getPath(target, key, "")
 	tmpDir := cache.getFullPath(target, key, "", "=")
 	cache.markDir(cacheDir, 0)
-	if err := fs.RemoveAll(cacheDir); err != nil {
+	// Never delete the live entry in place: dying part way through would leave a partial entry that a later retrieve
+	// reports as a hit. Move it to the temporary name in one step and remove it from there.
+	if err := fs.RemoveAll(tmpDir); err != nil {
+		log.Warning("Failed to remove temporary cache directory %s: %s", tmpDir, err)
+		return
+	} else if err := os.Rename(cacheDir, tmpDir); err != nil && !os.IsNotExist(err) {
+		log.Warning("Failed to move existing cache directory %s: %s", cacheDir, err)
+		return
+	} else if err := fs.RemoveAll(tmpDir); err != nil {
 		log.Warning("Failed to remove existing cache directory %s: %s", cacheDir, err)
 		return
 	}
